@@ -1,5 +1,6 @@
 import FlatModel.Driver.Engine
 import FlatModel.Model.Forms
+import FlatModel.Model.Serde
 /-! Builders for the per-entry driver hooks (`Extra`): which forms exist, how read items answer. -/
 namespace FC
 open Region
@@ -67,6 +68,13 @@ variable {R V I : Type} [Region R V I] [Wire V] [Wire I]
 def Extra.withCmp (e : Extra R V I) : Extra R V I :=
   { e with cmpItems := fun a i _ b j _ =>
       cmpBy (fun x y => valLt (Wire.toVal x) (Wire.toVal y)) (fun x y => Wire.toVal x == Wire.toVal y) a i b j }
+end
+
+section
+variable {R V I : Type} [Region R V I] [Ser R]
+/-- serde-enabled entries: `serde` is `de ∘ ser`, `ser` prints the tree as JSON -/
+def Extra.withSer (e : Extra R V I) : Extra R V I :=
+  { e with serde := fun r => Ser.de (Ser.ser r), ser := fun r => some (Ser.ser r).toJson }
 end
 
 /-! ### slices -/
